@@ -130,6 +130,18 @@ func evalDid(line string) (out string, rd string) {
 			return "perr", rd
 		}
 		k, err := d.PubKey()
+		// the answer for an identifier does not depend on how often it is asked: the same value again, an equal
+		// value parsed afresh, and the did.ToPubKey convenience path all agree with the first answer
+		for i, again := range []func() error{
+			func() error { _, e := d.PubKey(); return e },
+			func() error { d2, _ := did.Parse(t); _, e := d2.PubKey(); return e },
+			func() error { _, e := did.ToPubKey(t); return e },
+			func() error { _, e := d.PubKey(); return e },
+		} {
+			if e := again(); (e == nil) != (err == nil) {
+				return fmt.Sprintf("history: first-extraction-error=%v extraction#%d-error=%v", err != nil, i+2, e != nil), rd
+			}
+		}
 		if err != nil {
 			return "err", rd
 		}
